@@ -542,7 +542,7 @@ fn read_code<C: CodeVisitor>(
 	{
 		// We do this so that we can't read more than the bytecode
 		let mut r = Cursor::new(&bytecode);
-		while !r.get_ref()[(r.position() as usize)..].is_empty() {
+		while (r.position() as usize) < bytecode.len() {
 			// We may cast this to an u16, since we checked above that the length of the bytecode is less than 65536.
 			// Note that the value of u16::MAX = 65535 is not even possible as a value here.
 			let opcode_pos = r.position() as u16;
@@ -620,7 +620,8 @@ fn read_code<C: CodeVisitor>(
 
 						if low > high { bail!("in tableswitch `low` must be lower or equal to `high`, it's low={low:?} and high={high:?}"); }
 
-						let n = (high - low + 1) as u32; // always >= 1
+						let n = high.checked_sub(low).and_then(|n| n.checked_add(1)) // always >= 1
+							.with_context(|| anyhow!("in tableswitch the range from low={low:?} to high={high:?} is too large"))? as u32;
 
 						for _ in 0..n {
 							labels.create(r.read_i32_as_branch_target_label(opcode_pos)?)?;
@@ -649,6 +650,9 @@ fn read_code<C: CodeVisitor>(
 				Ok(())
 			})()
 				.with_context(|| anyhow!("at bytecode offset {}", opcode_pos))?;
+		}
+		if (r.position() as usize) != bytecode.len() {
+			bail!("the last instruction extends past the end of the bytecode");
 		}
 	}
 
@@ -1026,7 +1030,8 @@ fn read_code<C: CodeVisitor>(
 
 				if low > high { bail!("in tableswitch `low` must be lower or equal to `high`, it's low={low:?} and high={high:?}"); }
 
-				let n = (high - low + 1) as u32; // always >= 1
+				let n = high.checked_sub(low).and_then(|n| n.checked_add(1)) // always >= 1
+					.with_context(|| anyhow!("in tableswitch the range from low={low:?} to high={high:?} is too large"))? as u32;
 
 				let mut table = Vec::with_capacity(n as usize);
 				for _ in 0..n {
